@@ -42,10 +42,10 @@
 #   * LOADS in the engine's history ("reload" histories ~19%, also inside "mixed"): LoadTemplates(f) and
 #     the module's DebugController (GET /_pugtpl/debug?tpl=f) with f = the page template itself, one of
 #     its partials, the partial folder, a proper prefix of the page name, another template, a name that
-#     does not exist, "" - before, between and after renders and partial requests.  On a production-mode
-#     engine that never loaded, a filtered load as FIRST call is outside the property's domain (the
-#     engine then holds the filtered templates only; C17_filtered_first_refuted): generated with a small
-#     share ("filtered-first"), judged against the model only.
+#     does not exist, "" - before, between and after renders and partial requests.  About a third of
+#     these histories start with the filtered load on an engine that never loaded (the debug controller
+#     opened before the first page view): since repair dd313c0 of /repo such a load no longer marks the
+#     engine as loaded (F-C17-a, corpus/C17/F-C17-a.json; C17_filtered_first_unrepaired_refuted).
 import json
 import posixpath
 import unicodedata
@@ -373,8 +373,7 @@ def resolves(tree, t, p):
 
 # ------------------------------------------------------------------ engine history
 
-HISTORIES = [("fresh", 26), ("load", 12), ("page", 9), ("one", 9), ("partials", 13), ("mixed", 9), ("reload", 19),
-             ("filtered-first", 3)]
+HISTORIES = [("fresh", 26), ("load", 12), ("page", 9), ("one", 9), ("partials", 13), ("mixed", 9), ("reload", 22)]
 
 
 def gen_filter(rng, t, existing, names):
@@ -397,7 +396,7 @@ def gen_filter(rng, t, existing, names):
 
 
 def hist_ok(prep):
-    """mirror of Models.Partials.hist_ok (statistics only; the judge computes its own)"""
+    """statistics only: False iff the first call that touches the template set is a filtered load"""
     for op in prep:
         if op["op"] in ("load", "debugctl"):
             return not unhx(op.get("filter", ""))
@@ -475,20 +474,19 @@ def gen_prep(rng, t, existing, req, tree=None, treq=None, names=(), traffic=Fals
                 ops.append({"op": "partials", "t": hx(t),
                             "names": [hx(rng.choice(existing)) for _ in range(rng.randint(1, 3))]})
         return kind, ops
-    if kind == "filtered-first":
-        # outside the domain on a production engine: the very first call is a filtered load
-        return kind, [reload()] + [rng.choice([reload(), one(), partials(), {"op": "load"}])
-                                   for _ in range(rng.choice([0, 0, 1, 2]))]
     if kind == "reload":
         # an engine that has everything loaded (start-up preload, a first page view, an earlier partial
-        # request), then single templates are reloaded - alone, several, with other calls in between
+        # request) or - one time in three - an engine that has not loaded anything yet; then single
+        # templates are (re)loaded - alone, several, with other calls (also a late full load) in between
         ops = [rng.choice([{"op": "load"}, {"op": "load"}, {"op": "render", "name": hx(t)}, partials()])]
+        if rng.random() < 0.34:
+            ops = []
         for _ in range(rng.choice([1, 1, 2, 3])):
             if rng.random() < 0.3:
                 ops.append(rng.choice([one(), partials(), {"op": "render", "name": hx(t)}]))
             ops.append(reload())
         if rng.random() < 0.25:
-            ops.append(rng.choice([one(), partials()]))
+            ops.append(rng.choice([one(), partials(), {"op": "load"}]))
         return kind, ops
     ops = []
     for _ in range(rng.randint(2, 4)):
@@ -516,12 +514,12 @@ class C17(Prop):
     rule = ("generated template trees with .partial/ folders and request lists (empty, duplicates, unknown names, "
             "permutations) x engine history before the judged RenderPartials call (fresh engine with no "
             "LoadTemplates/Render ~1/4; preloaded; page render; one partial render; earlier RenderPartials incl. "
-            "failing ones; mixed; 'reload' ~19%: a loaded engine, then LoadTemplates(f) or the module's "
+            "failing ones; mixed; 'reload' ~22%: a loaded engine, then LoadTemplates(f) or the module's "
             "DebugController (GET /_pugtpl/debug?tpl=f) with f = the page template itself, one of its partials, the "
             "partial folder, a proper prefix of the page or of a partial name, another template, a name that does "
-            "not exist, a decorated name or '' - alone, several, with renders / partial requests in between; "
-            "'traffic': 3-8 earlier requests for partials of the page; 'filtered-first' ~3%: a filtered load as the "
-            "very first call, which is OUTSIDE the domain on a production engine and judged against the model only; "
+            "not exist, a decorated name or '' - alone, several, with renders / partial requests in between; in one "
+            "third of them the filtered load is the very FIRST call of an engine that never loaded (F-C17-a, repaired "
+            "in /repo dd313c0); 'traffic': 3-8 earlier requests for partials of the page; "
             "earlier calls with the same or with other data) x partial templates (plain, readers of "
             "list/object/number fields, mutators of the data they are given: push/pop/shift/unshift/sort/splice/"
             "member and top-level assignment) x typed Go data (map[string]interface{}, []interface{}, []string, "
@@ -553,10 +551,11 @@ class C17(Prop):
                "_history_independent (arbitrary function of the template name; in _history_independent also an "
                "arbitrary load function); in C17_spec_tree/_unknown_name_errors/_success_iff_all_exist it is the "
                "exact lookup of the name in the set of files of the tree followed by an arbitrary execution function; "
-               "in C17_reloads_harmless/_fresh_engine_history/_debug_engine it is Models.Partials.render_eng: the "
-               "engine's template set as state (None = never loaded), LoadTemplates(filter) = load (prefix rule of "
-               "compileDir + keep-what-the-filter-does-not-cover of loadTemplates, 'again' error of a second full "
-               "load), load-on-demand of Render in production and in debug mode, exact lookup, arbitrary execution. "
+               "in C17_reloads_harmless/_every_history/_debug_engine it is Models.Partials.render_eng: the engine's "
+               "state (templatesLoaded flag, compiled template names), LoadTemplates(filter) = load (prefix rule of "
+               "compileDir + keep-what-the-filter-does-not-cover of loadTemplates, only a full load sets the flag, "
+               "'again' error of a second full load), load-on-demand of Render in production and in debug mode, "
+               "exact lookup, arbitrary execution. "
                "The judge instantiates the file set with the generated tree (= the files the harness found on disk), "
                "the history with the calls the engine under test received, and the execution with the per-name "
                "results observed in SEPARATE reference processes (same tree, same debug mode, preloaded), each with "
@@ -576,19 +575,17 @@ class C17(Prop):
                    "goroutine per engine; a generated partial may fail when executed (JSON.stringify of a value that "
                    "cannot be encoded, a function applied to nil) - then it fails alone as well and the oracle demands "
                    "the error",
-                   "DOMAIN (dom17, computed in Coq from the history): on a production-mode engine that never loaded, "
-                   "the first call that touches the template set is not a FILTERED load. Observed on the real code, "
-                   "modelled (load) and proved necessary (C17_filtered_first_refuted): LoadTemplates('home.partial/a') "
-                   "or GET /_pugtpl/debug?tpl=home on such an engine marks it as loaded with the filtered templates "
-                   "only, so existing partials outside the filter are 'not found' until restart. Such histories are "
-                   "generated (~3%) and judged against the model only (they agree). Applications preload at start-up",
+                   "every generated history is in the domain, a filtered load as the first call of a production "
+                   "engine included: before repair dd313c0 of /repo such a load marked the engine as loaded with the "
+                   "filtered templates only (F-C17-a; counter-model load_unrepaired, "
+                   "C17_filtered_first_unrepaired_refuted)",
                    "values with reference cycles are not generated: encoding one (debug(o) with o.self = o) exhausts "
                    "the Go stack and kills the process, alone and in a request alike",
                    "the file tree has clean relative paths only and lives on a case-sensitive file system without "
                    "unicode normalisation (Linux); no symbolic links; request names are valid UTF-8 without NUL",
                    "C17_history_independent assumes that Render's result does not depend on the engine/process/data "
                    "state left by earlier calls (hypothesis visible in the theorem); for the engine's template set the "
-                   "hypothesis is PROVED of the model (C17_reloads_harmless, C17_fresh_engine_history, "
+                   "hypothesis is PROVED of the model for every history (C17_reloads_harmless, C17_every_history, "
                    "C17_debug_engine); for everything else (data objects, process-wide state of template functions) "
                    "the correspondence check tests it on the real code via the history, mutator and function streams"]
     not_yet_proved = ["that compileDir registers exactly one key per file <name>.ast.json (key = clean relative path), "
@@ -809,7 +806,7 @@ class C17(Prop):
                 yield w(files=f2)
 
     def model_expr(self):
-        return "(model17 c, exists17 c, state17 c, dom17 c)"
+        return "(model17 c, exists17 c, state17 c)"
 
     def distribution(self, cases, obss):
         d = {"empty_request": 0, "with_duplicates": 0, "with_unknown": 0, "go_error": 0,
@@ -822,7 +819,7 @@ class C17(Prop):
              "option_on_awkward_value_before_getter_encoder": 0, "requested_partial_fails_alone": 0,
              "history_with_filtered_load": 0, "history_with_debug_controller": 0, "filter_kinds": {},
              "reload_covering_requested_partials_then_all_exist": 0,
-             "off_domain_filtered_load_first": 0, "processes": 0}
+             "filtered_load_first_on_production_engine": 0, "filtered_load_first_then_all_requested_exist": 0, "processes": 0}
         for c, o in zip(cases, obss):
             ps = c["partials"]
             d["empty_request"] += not ps
@@ -867,7 +864,9 @@ class C17(Prop):
             d["reload_covering_requested_partials_then_all_exist"] += bool(ps) and not unk and not c.get("debug") and any(
                 (tp + unhx(p)).startswith(unhx(op["filter"])) and tp + unhx(p) != unhx(op["filter"])
                 for op in flt for p in ps)
-            d["off_domain_filtered_load_first"] += (not c.get("debug")) and not hist_ok(prep)
+            ff = (not c.get("debug")) and not hist_ok(prep)
+            d["filtered_load_first_on_production_engine"] += ff
+            d["filtered_load_first_then_all_requested_exist"] += ff and bool(ps) and not unk
             d["processes"] += o.get("procs", 0)
             h = m.get("history", "corpus")
             d["history"][h] = d["history"].get(h, 0) + 1
